@@ -50,7 +50,6 @@ func (a *Auth) ParseAuthorization(authStr string) (err error) {
 
 	switch {
 	case strings.HasPrefix(authStr, "Basic "):
-		a.Typ = AuthTypeBasic
 		authBase64Str := strings.TrimPrefix(authStr, "Basic ")
 
 		authInfo, err := base64.StdEncoding.DecodeString(authBase64Str)
@@ -64,6 +63,8 @@ func (a *Auth) ParseAuthorization(authStr string) (err error) {
 			return fmt.Errorf("invalid Authorization:%s", authStr)
 		}
 
+		// 解析成功才设置类型，解析失败的Authorization不能当作空用户名空密码去校验
+		a.Typ = AuthTypeBasic
 		a.Username, a.Password = tmp[0], tmp[1]
 
 	case strings.HasPrefix(authStr, "Digest "):
